@@ -52,6 +52,16 @@ add("C04",
     "No reference stencil is assumed; exactness tolerance 1e-9*max|v|/h^order; cell sizes 0.3 and 2^-7 in the "
     "enumeration, arbitrary in the embeddings.", category="exploration")
 
+add("C05",
+    "Hypothesis-generated polynomial/random fields with permuted mappings and renamed axes; three oracles: combination "
+    "of Field.diff through an independently inverted mapping, analytic derivatives, vector identities and commutation "
+    "with rotate90",
+    "Generated-input search; the first clause (textbook combination, pairing by mapping) is checked for every mask and "
+    "bc by recomputing each operator from Field.diff of the component the harness itself maps to each axis; exactness "
+    "on degree<=2 polynomials analytically; curl grad = 0, div curl = 0 and commutation with quarter turns on fully "
+    "valid meshes; refusals must raise.",
+    "Relies on C04 for Field.diff and C12 for rotate90; mappings with duplicate targets are not generated.")
+
 PENDING = {}
 
 
